@@ -1,6 +1,8 @@
 // C02 — Union / UnionDisjointStates / Intersection / IntersectionBU of explicit tree automata.
 #include "runner.hh"
 #include "domain.hh"
+#include "explicit_tree_aut_core.hh"
+#include "loadable_aut.hh"
 
 using namespace verif; using namespace VATA;
 
@@ -77,6 +79,19 @@ static void body(Env& env, const std::string& stage, int n, const dom::Alphabet&
         for (int bu = 0; bu < 2; bu++) { AutBase::ProductTranslMap pm; ExplicitTreeAut r = bu ? ExplicitTreeAut::IntersectionBU(a, a, &pm) : ExplicitTreeAut::Intersection(a, a, &pm);
           if (!ref::equalLang(dom::readBack(r), A)) c.viol(bu ? "IntersectionBU(aliased)" : "Intersection(aliased)", "language_not_the_intersection", {}, det("both operands are the same object; result: " + dom::readBack(r).str()), w); }
         if (dom::readBack(a) != A) c.viol("aliased", "operand_changed", {}, det(""), w); }
+      // ---- the same pair built from a COMMON ANCESTOR: anc = A meet B (the rules and final states both have); a2, b2 = copies of anc to which the rest is added.
+      //      The operands then share every copy-on-write level the additions did not touch (the whole rule map when the rule sets coincide).
+      { ref::TA C; for (auto& r : A.rules) if (B.rules.count(r)) C.rules.insert(r); for (auto q : A.finals) if (B.finals.count(q)) C.finals.insert(q);
+        ExplicitTreeAut anc = dom::build(C); ExplicitTreeAut a2(anc), b2; b2 = anc;
+        auto grow = [&](ExplicitTreeAut& x, const ref::TA& X) { for (auto q : X.finals) if (!C.finals.count(q)) x.SetStateFinal(q); for (auto& r : X.rules) if (!C.rules.count(r)) x.AddTransition(r.ch, r.sym, r.par); };
+        grow(a2, A); grow(b2, B); c.count("common_ancestor_pairs"); if (a2.core_->transitions_.get() == b2.core_->transitions_.get()) c.count("common_ancestor_pairs_sharing_the_whole_rule_map");
+        std::vector<std::string> f2 = {"operands_derived_from_a_common_ancestor"}; std::string dd = det("ancestor: " + D_->str(C));
+        if (dom::readBack(a2) != A || dom::readBack(b2) != B || dom::readBack(anc) != C) c.viol("copies grown from a common ancestor", "handle_reads_wrong_value", f2, dd, w);
+        else {
+          { ExplicitTreeAut r = ExplicitTreeAut::Union(a2, b2); ref::TA R = dom::readBack(r); if (!ref::equalLang(R, U)) c.viol("Union(nomaps)", "language_not_the_union", f2, dd + " result: " + R.str(), w); }
+          { AutBase::StateToStateMap m1, m2; ExplicitTreeAut r = ExplicitTreeAut::Union(a2, b2, &m1, &m2); ref::TA R = dom::readBack(r); if (!ref::equalLang(R, U)) c.viol("Union(emptymaps)", "language_not_the_union", f2, dd + " result: " + R.str(), w); }
+          for (int bu = 0; bu < 2; bu++) { ExplicitTreeAut r = bu ? ExplicitTreeAut::IntersectionBU(a2, b2) : ExplicitTreeAut::Intersection(a2, b2); ref::TA R = dom::readBack(r); if (!ref::equalLang(R, prod)) c.viol(bu ? "IntersectionBU(nomap)" : "Intersection(nomap)", "language_not_the_intersection", f2, dd + " result: " + R.str(), w); }
+          if (dom::readBack(a2) != A || dom::readBack(b2) != B || dom::readBack(anc) != C) c.viol("union/intersection", "operand_changed", f2, dd, w); } }
     } catch (std::exception& e) { c.viol("union/intersection", "exception", {}, det(e.what()), w); }
   };
   env.parallel(o);
